@@ -132,8 +132,14 @@ func (d *jsonDecoder) cutFieldsBySize(data []byte) []byte {
 	slices.SortFunc(d.cutPositions, func(p1, p2 jsonCutPos) int {
 		return p2.start - p1.start
 	})
+	prevStart := len(data) + 1
 	for _, p := range d.cutPositions {
+		// two paths may resolve to the same value (e.g. "a" and "*"): cut it once
+		if p.end >= prevStart {
+			continue
+		}
 		data = append(data[:p.start], data[p.end+1:]...)
+		prevStart = p.start
 	}
 
 	return data
